@@ -80,13 +80,15 @@ type Commit struct {
 	Updates []*Buffer // The update buffers
 }
 
-// Clone clones a commit into a new one
+// Clone clones a commit into a new one. The buffers of a transaction which spans several
+// chunks are shared by all of its commits, hence only the operations of the commit's own
+// chunk are carried over (as WriteTo does).
 func (c *Commit) Clone() (clone Commit) {
 	clone.ID = c.ID
 	clone.Chunk = c.Chunk
 	for _, u := range c.Updates {
 		if len(u.buffer) > 0 {
-			clone.Updates = append(clone.Updates, u.Clone())
+			clone.Updates = append(clone.Updates, u.cloneChunk(c.Chunk))
 		}
 	}
 	return
